@@ -604,10 +604,10 @@ theorem constants_match_source :
     ((List.range 256).filter (fun n => OffLex.isWs (UInt8.ofNat n)) = Generated.lexWhitespace) ∧
     ((List.range 256).filter (fun n => OffLex.isDelim (UInt8.ofNat n)) = Generated.lexDelimiters) := by
   refine ⟨?_, ?_, ?_, ?_, ?_⟩
-  · decide +kernel
-  · decide +kernel
-  · decide +kernel
-  · decide +kernel
-  · decide +kernel
+  · first | decide +kernel | fail "constants_match_source (C17): the model's Offsets.headerWindow does not match the source (Generated.headerWindow, re-extracted from pdf/src)"
+  · first | decide +kernel | fail "constants_match_source (C17): the model's Offsets.headerMarker does not match the source (Generated.headerMarker, re-extracted from pdf/src)"
+  · first | decide +kernel | fail "constants_match_source (C17): the model's Offsets.maxId does not match the source (Generated.maxId, re-extracted from pdf/src)"
+  · first | decide +kernel | fail "constants_match_source (C17): the model's OffLex.isWs does not match the source (Generated.lexWhitespace, re-extracted from pdf/src)"
+  · first | decide +kernel | fail "constants_match_source (C17): the model's OffLex.isDelim does not match the source (Generated.lexDelimiters, re-extracted from pdf/src)"
 
 end Offsets
